@@ -64,11 +64,15 @@ func (ex *Exec) lvalueLocs(env *SpecEnv, e ast.Expr) []modLoc {
 		return ex.lvalueLocs(env, x.X)
 	case *ast.CallExpr:
 		// closed(ch): the closedness of channel ch; closed(any): of every channel
-		if id, ok := x.Fun.(*ast.Ident); ok && id.Name == "closed" && len(x.Args) == 1 {
-			if a, ok := x.Args[0].(*ast.Ident); ok && a.Name == "any" {
-				return []modLoc{{class: chanClosedClass, anyObj: true}}
+		if id, ok := x.Fun.(*ast.Ident); ok && (id.Name == "closed" || id.Name == "cancelled") && len(x.Args) == 1 {
+			cls := chanClosedClass
+			if id.Name == "cancelled" {
+				cls = ctxCancelledClass
 			}
-			return []modLoc{{class: chanClosedClass, ref: env.eval(x.Args[0]).V.(Scalar).T}}
+			if a, ok := x.Args[0].(*ast.Ident); ok && a.Name == "any" {
+				return []modLoc{{class: cls, anyObj: true}}
+			}
+			return []modLoc{{class: cls, ref: env.eval(x.Args[0]).V.(Scalar).T}}
 		}
 	case *ast.SelectorExpr:
 		// any(T).f: field f of every object of type T
@@ -295,6 +299,26 @@ func (ex *Exec) checkFrameChan(st *State, ch *Term, pos token.Pos) {
 		}
 	}
 	ex.emit(st, "frame", ex.srcLabel(st.top().Fn, pos, "close"), Or(alts...), pos, top.Spec.Props)
+}
+
+// checkFrameCancel: calling a cancel function that existed at entry needs cancelled(f) (or '*') in the modifies clause.
+func (ex *Exec) checkFrameCancel(st *State, f *Term, pos token.Pos) {
+	top := ex.topFrame(st)
+	if top.Spec == nil || top.Spec.ModAll || ex.pure != nil || st.Fresh[f] || top.EntryFull == nil {
+		return
+	}
+	alts := []*Term{Lt(top.EntryFull.Frontier, f)}
+	for _, m := range top.Mods {
+		if m.class == ctxCancelledClass {
+			if m.anyObj {
+				return
+			}
+			if m.ref != nil {
+				alts = append(alts, Eq(f, m.ref))
+			}
+		}
+	}
+	ex.emit(st, "frame", ex.srcLabel(st.top().Fn, pos, "cancel"), Or(alts...), pos, top.Spec.Props)
 }
 
 func (ex *Exec) checkImmutable(st *State, p *PtrV, pos token.Pos) {
@@ -826,6 +850,9 @@ func (ex *Exec) staticModClasses(sp *FuncSpec, fn *ssa.Function, sig *types.Sign
 	case *ast.CallExpr:
 		if id, ok := x.Fun.(*ast.Ident); ok && id.Name == "closed" {
 			return []string{chanClosedClass}
+		}
+		if id, ok := x.Fun.(*ast.Ident); ok && id.Name == "cancelled" {
+			return []string{ctxCancelledClass}
 		}
 	case *ast.SelectorExpr:
 		bt := typeOf(x.X)
